@@ -315,6 +315,9 @@ func (r *renderer) allocContent(a *ssa.Alloc, d int) string {
 	elem := a.Type().Underlying().(*types.Pointer).Elem()
 	switch t := elem.Underlying().(type) {
 	case *types.Struct:
+		if name := mutableLocalName(a); name != "" {
+			return name
+		}
 		var parts []string
 		base := ""
 		nWhole := 0
@@ -678,4 +681,38 @@ func loopCarried(phi *ssa.Phi) bool {
 	}
 	loopCarriedCache[phi] = res
 	return res
+}
+
+// mutableLocalName: a named local struct variable whose fields are stored in several blocks (or
+// several times) is a piece of mutable state, not a value: it is rendered by its name.
+func mutableLocalName(a *ssa.Alloc) string {
+	name := a.Comment
+	if name == "" || name == "complit" || name == "varargs" || name == "slicelit" || strings.ContainsAny(name, " .()") {
+		return ""
+	}
+	blocks := map[*ssa.BasicBlock]bool{}
+	perField := map[int]int{}
+	for _, rf := range referrersOf(a) {
+		fa, ok := rf.(*ssa.FieldAddr)
+		if !ok {
+			continue
+		}
+		for _, rr := range referrersOf(fa) {
+			if st, ok := rr.(*ssa.Store); ok && st.Addr == ssa.Value(fa) {
+				blocks[st.Block()] = true
+				perField[fa.Field]++
+			}
+		}
+	}
+	multi := false
+	_ = blocks
+	for _, n := range perField {
+		if n > 1 {
+			multi = true
+		}
+	}
+	if multi {
+		return name
+	}
+	return ""
 }
